@@ -1,7 +1,5 @@
-/- Line-protocol engine for C04 — stub, to be filled in. -/
-import CV.Proto
+/- Line-protocol engine for C04 (locks / session invalidation): the shared store engine. -/
+import CV.Engine.StoreCore
 namespace CV.Engine.C04
-open CV
-def step (_ : Unit) (_toks : List String) : Unit × String := ((), "bad-op")
-def engine : Engine := { State := Unit, init := (), step := step }
+def engine : CV.Engine := CV.Engine.StoreCore.engine
 end CV.Engine.C04
